@@ -2662,6 +2662,10 @@ static bool upipe_h265f_work_nalu(struct upipe *upipe, struct uref *uref,
 
     UBASE_RETURN(uref_block_set_header_size(uref, vcl_offset))
 
+    if (au_slice) {
+        UBASE_FATAL(upipe, upipe_h265f_prepare_au(upipe, uref))
+    }
+    upipe_h265f->pic_struct = -1;
     upipe_h265f_output_au(upipe, uref, upump_p);
     return true;
 }
@@ -2754,6 +2758,10 @@ static bool upipe_h265f_work_length(struct upipe *upipe, struct uref *uref,
 
     UBASE_RETURN(uref_block_set_header_size(uref, vcl_offset))
 
+    if (au_slice) {
+        UBASE_FATAL(upipe, upipe_h265f_prepare_au(upipe, uref))
+    }
+    upipe_h265f->pic_struct = -1;
     upipe_h265f_output_au(upipe, uref, upump_p);
     return true;
 }
